@@ -838,6 +838,32 @@ func localFieldEmpty(al *ssa.Alloc, idx int, at ssa.Instruction, depth int) bool
 					continue
 				}
 			}
+			// ... or from a helper that builds the value and leaves the field alone
+			if call, ok := x.Val.(*ssa.Call); ok {
+				if callee := call.Call.StaticCallee(); callee != nil && callee.Blocks != nil && callee.Signature.Results().Len() == 1 {
+					all := true
+					n := 0
+					for _, b := range callee.Blocks {
+						ret, isRet := b.Instrs[len(b.Instrs)-1].(*ssa.Return)
+						if !isRet {
+							continue
+						}
+						n++
+						ld, isLd := ret.Results[0].(*ssa.UnOp)
+						if !isLd || ld.Op != token.MUL {
+							all = false
+							continue
+						}
+						src, isA := ld.X.(*ssa.Alloc)
+						if !isA || !localFieldEmpty(src, idx, ld, depth+1) {
+							all = false
+						}
+					}
+					if all && n > 0 {
+						continue
+					}
+				}
+			}
 			wholeDirty = true
 		case *ssa.FieldAddr:
 			if x.Field != idx {
